@@ -203,6 +203,55 @@ zst_type!(Z64, 64, "Z64");
 // the zero-sized type handed to `ZstCache::<16>::alloc` by the `zc:8:16` target
 zst_type!(ZC8, 8, "ZC8");
 
+
+macro_rules! zst_nodrop_type {
+    ($name:ident, $a:literal) => {
+        #[repr(align($a))]
+        pub struct $name;
+        unsafe impl<'gc> Collect<'gc> for $name {
+            const NEEDS_TRACE: bool = false;
+        }
+        impl<'gc> Tr<'gc> for $name {
+            fn id(&self) -> u32 {
+                0
+            }
+            fn val(&self) -> u64 {
+                $a
+            }
+            fn child_val(&self) -> Option<u64> {
+                None
+            }
+        }
+    };
+}
+// zero-sized types without a destructor (ZstCache aliasing grid)
+zst_nodrop_type!(ZN2, 2);
+zst_nodrop_type!(ZN8, 8);
+zst_nodrop_type!(ZN16, 16);
+pub type U2 = [(); 2];
+pub type U3 = [(); 3];
+
+/// A zero-sized value the aliasing grid can make, with its name in the case lines.
+pub trait ZMake: Sized {
+    const NAME: &'static str;
+    fn make() -> Self;
+}
+macro_rules! zmake {
+    ($($t:ty => $n:literal, $e:expr;)*) => {$(
+        impl ZMake for $t {
+            const NAME: &'static str = $n;
+            fn make() -> Self {
+                $e
+            }
+        }
+    )*};
+}
+zmake! {
+    Z1 => "z:1", Z1; Z4 => "z:4", Z4; Z8 => "z:8", Z8; Z64 => "z:64", Z64;
+    ZN2 => "zn:2", ZN2; ZN8 => "zn:8", ZN8; ZN16 => "zn:16", ZN16;
+    U2 => "u:2", [(); 2]; U3 => "u:3", [(); 3];
+}
+
 // ---------------------------------------------------------------------------------------------
 // Rootable families for DynamicRootSet::stash
 // ---------------------------------------------------------------------------------------------
@@ -486,6 +535,36 @@ zst_tgt_impl!(Z32, Z32Fam, 32, "Z32", 1, |mc| Gc::new(mc, Z32));
 zst_tgt_impl!(Z64, Z64Fam, 64, "Z64", 1, |mc| Gc::new(mc, Z64));
 // the cache itself is not kept: only the pointer it handed out holds its block
 zst_tgt_impl!(ZC8, ZC8Fam, 8, "ZC8", 0, |mc| ZstCache::<16>::new(mc).alloc(mc, ZC8));
+
+
+zst_tgt_impl!(ZN2, ZN2Fam, 2, "ZN2", 0, |mc| Gc::new(mc, ZN2));
+zst_tgt_impl!(ZN8, ZN8Fam, 8, "ZN8", 0, |mc| Gc::new(mc, ZN8));
+zst_tgt_impl!(ZN16, ZN16Fam, 16, "ZN16", 0, |mc| Gc::new(mc, ZN16));
+
+pub struct UnitSliceFam;
+impl<'a> Rootable<'a> for UnitSliceFam {
+    type Root = [()];
+}
+macro_rules! unit_array_tgt {
+    ($T:ty, $F:ident, $n:literal) => {
+        pub struct $F;
+        impl<'a> Rootable<'a> for $F {
+            type Root = $T;
+        }
+        sized_tgt! {
+            ty: $T, fam: $F, u: [()], ufam: UnitSliceFam, tag: "", child: false,
+            drops: |_| 0,
+            alloc: |mc, _e, _c| Gc::new(mc, [(); $n]),
+            check: |v, _e| if v.len() == $n { Ok(()) } else { Err(format!("array length reads {}", v.len())) },
+            check_u: |v, _e| if v.len() == $n { Ok(()) } else { Err(format!("[()] length reads {}, the array has {} elements", v.len(), $n)) },
+            dlen_u: |p| p.len().to_string(),
+            unsize_s: |p| unsize!(p => [()]),
+            unsize_w: |w| unsize!(w => [()])
+        }
+    };
+}
+unit_array_tgt!(U2, U2Fam, 2);
+unit_array_tgt!(U3, U3Fam, 3);
 
 // ---- [Elem] allocated as a slice -------------------------------------------------------------
 
